@@ -4,6 +4,8 @@ package absnfs
 
 import (
 	"fmt"
+	"os"
+	"syscall"
 	"testing"
 
 	"verif.local/lib/evid"
@@ -70,10 +72,18 @@ func TestVerif_C22(t *testing.T) {
 	rec.Distinct(fmt.Sprintf("verifier-instances|distinct=%v", len(seen) == inst))
 }
 
+type vfC22File struct {
+	name  string
+	fh    uint64
+	ack   *vfAck  // bytes acknowledged as stable
+	model []int16 // -1 = unknown (range of a failed WRITE), else last written value
+}
+
 func vfC22Episode(rec *evid.Rec, ep int) int {
 	rng := evid.Rng(22, int64(ep))
 	fs := refs.New()
 	fs.PlantFile("/f", nil, 0666, 0, 0)
+	fs.PlantFile("/g", nil, 0666, 0, 0)
 	srv, err := vfNewSrv(fs, ExportOptions{AttrCacheTimeout: 1})
 	if err != nil {
 		rec.Infra(err.Error())
@@ -82,138 +92,212 @@ func vfC22Episode(rec *evid.Rec, ep int) int {
 	defer srv.Close()
 	c := srv.client()
 	root, _ := c.mnt("/")
-	l, _ := c.lookup(root, "f")
-	if l == nil || l.Status != 0 {
-		rec.Infra("lookup")
-		return 0
+	var files []*vfC22File
+	for _, n := range []string{"f", "g"} {
+		l, _ := c.lookup(root, n)
+		if l == nil || l.Status != 0 {
+			rec.Infra("lookup")
+			return 0
+		}
+		files = append(files, &vfC22File{name: n, fh: vfFH(l.FH), ack: &vfAck{}})
 	}
-	fh := vfFH(l.FH)
-	ack := &vfAck{}
+	// every third episode injects backend faults: a failing Sync / WriteAt / open must
+	// never be answered with an acknowledgement the durable state does not back
+	faulty := ep%3 == 2
 	var ops []string
 	points := 0
 	var firstViolation string
 	// the request currently in flight may already have replaced acknowledged
 	// bytes in its own range (or cut the file): both old and new are fine there
+	var flightFile *vfC22File
 	var flightOff, flightTrunc = -1, -1
 	var flightData []byte
 	check := func(where string) {
 		points++
-		d, _ := fs.DurableBytes("/f")
-		for i, v := range ack.b {
-			if v < 0 {
-				continue
-			}
-			if flightTrunc >= 0 && i >= flightTrunc {
-				continue
-			}
-			if flightOff >= 0 && i >= flightOff && i < flightOff+len(flightData) && i < len(d) && d[i] == flightData[i-flightOff] {
-				continue
-			}
-			if i >= len(d) || int16(d[i]) != v {
-				if firstViolation == "" {
-					firstViolation = fmt.Sprintf("crash %s: byte %d acknowledged as %d is %s in the durable state (durable size %d)", where, i, v, map[bool]string{true: "missing", false: "different"}[i >= len(d)], len(d))
+		for _, f := range files {
+			d, _ := fs.DurableBytes("/" + f.name)
+			for i, v := range f.ack.b {
+				if v < 0 {
+					continue
 				}
-				return
+				if f == flightFile {
+					if flightTrunc >= 0 && i >= flightTrunc {
+						continue
+					}
+					if flightOff >= 0 && i >= flightOff && i < flightOff+len(flightData) && i < len(d) && d[i] == flightData[i-flightOff] {
+						continue
+					}
+				}
+				if i >= len(d) || int16(d[i]) != v {
+					if firstViolation == "" {
+						firstViolation = fmt.Sprintf("crash %s: byte %d of %s acknowledged as %d is %s in the durable state (durable size %d)", where, i, f.name, v, map[bool]string{true: "missing", false: "different"}[i >= len(d)], len(d))
+					}
+					return
+				}
 			}
 		}
 	}
+	injected := 0
 	fs.SetHook(func(op *refs.Op, ph refs.Phase) error {
 		if ph == refs.After {
 			check(fmt.Sprintf("after backend call %s(%s) #%d", op.Name, op.Path, op.Seq))
+			return nil
+		}
+		if faulty {
+			switch op.Name {
+			case "File.Sync":
+				if rng.Intn(3) == 0 {
+					injected++
+					return &os.PathError{Op: "sync", Path: op.Path, Err: syscall.EIO}
+				}
+			case "File.WriteAt":
+				if rng.Intn(8) == 0 {
+					injected++
+					return &os.PathError{Op: "write", Path: op.Path, Err: syscall.ENOSPC}
+				}
+			case "File.Close":
+				if rng.Intn(10) == 0 {
+					injected++
+					return &os.PathError{Op: "close", Path: op.Path, Err: syscall.EIO}
+				}
+			}
 		}
 		return nil
 	})
-	type pend struct{ off, n int }
-	var pending []pend
-	var model []byte
 	var verf *[8]byte
 	committedSeen := map[uint32]bool{}
-	for i := 0; i < 20; i++ {
-		switch k := rng.Intn(10); {
+	seeVerf := func(v [8]byte, what string) {
+		if verf == nil {
+			verf = &v
+		} else if *verf != v {
+			rec.Violate("C22/write-verifier-changed-during-instance-life", fmt.Sprintf("%x then %x (%s)", *verf, v, what), ops)
+		}
+	}
+	for i := 0; i < 24; i++ {
+		f := files[0]
+		if rng.Intn(4) == 0 {
+			f = files[1]
+		}
+		switch k := rng.Intn(12); {
 		case k < 6:
-			off := rng.Intn(len(model) + 8)
+			off := rng.Intn(len(f.model) + 8)
 			n := 1 + rng.Intn(24)
 			stable := uint32(rng.Intn(3))
 			data := make([]byte, n)
 			for j := range data {
 				data[j] = byte(1 + (i*37+j*11)%250)
 			}
-			ops = append(ops, fmt.Sprintf("WRITE off=%d len=%d stable=%d", off, n, stable))
+			cls := "overwrite"
+			if off == len(f.model) {
+				cls = "append"
+			} else if off > len(f.model) {
+				cls = "hole"
+			} else if off+n > len(f.model) {
+				cls = "straddle"
+			}
+			ops = append(ops, fmt.Sprintf("WRITE %s off=%d len=%d stable=%d", f.name, off, n, stable))
 			rec.Eval(1)
-			flightOff, flightData = off, data
-			w, _ := c.write(fh, uint64(off), stable, data)
-			flightOff, flightData = -1, nil
+			before := injected
+			flightFile, flightOff, flightData = f, off, data
+			w, _ := c.write(f.fh, uint64(off), stable, data)
+			flightFile, flightOff, flightData = nil, -1, nil
 			if w == nil || w.Status != 0 {
+				// a failed WRITE leaves its range undefined: nothing there is acknowledged any more
+				for len(f.model) < off+n {
+					f.model = append(f.model, -1)
+				}
+				f.ack.grow(off + n)
+				for j := off; j < off+n; j++ {
+					f.model[j] = -1
+					f.ack.b[j] = -1
+				}
+				st := -1
+				if w != nil {
+					st = int(w.Status)
+				}
+				rec.Distinct(fmt.Sprintf("WRITE-failed|%s|fault=%v|st=%d", cls, injected > before, st))
 				continue
 			}
-			if verf == nil {
-				v := w.Verf
-				verf = &v
-			} else if *verf != w.Verf {
-				rec.Violate("C22/write-verifier-changed-during-instance-life", fmt.Sprintf("%x then %x", *verf, w.Verf), ops)
-			}
+			seeVerf(w.Verf, "WRITE")
 			cnt := int(w.Count)
-			if off+cnt > len(model) {
-				model = append(model, make([]byte, off+cnt-len(model))...)
+			for len(f.model) < off+cnt {
+				f.model = append(f.model, 0)
 			}
-			copy(model[off:], data[:cnt])
-			ack.grow(off + cnt)
+			for j := 0; j < cnt; j++ {
+				f.model[off+j] = int16(data[j])
+			}
+			f.ack.grow(off + cnt)
 			committedSeen[w.Committed] = true
 			if w.Committed == 2 {
 				for j := 0; j < cnt; j++ {
-					ack.b[off+j] = int16(data[j])
+					f.ack.b[off+j] = int16(data[j])
 				}
+			} else if w.Committed < stable {
+				rec.Violate("C22/write-committed-weaker-than-requested", fmt.Sprintf("stable_how=%d answered committed=%d", stable, w.Committed), ops)
 			} else {
 				for j := 0; j < cnt; j++ {
-					ack.b[off+j] = -1 // may or may not have reached stable storage
+					f.ack.b[off+j] = -1 // may or may not have reached stable storage
 				}
-				pending = append(pending, pend{off, cnt})
 			}
 			check("right after the WRITE reply")
-			rec.Distinct(fmt.Sprintf("WRITE|stable=%d|committed=%d", stable, w.Committed))
+			rec.Distinct(fmt.Sprintf("WRITE|%s|stable=%d|committed=%d|fault-in-request=%v", cls, stable, w.Committed, injected > before))
 		case k < 8:
-			coff := rng.Intn(len(model) + 1)
-			ccnt := rng.Intn(len(model) + 4)
+			coff := rng.Intn(len(f.model) + 1)
+			ccnt := rng.Intn(len(f.model) + 4)
 			if rng.Intn(2) == 0 {
 				coff, ccnt = 0, 0
 			}
-			ops = append(ops, fmt.Sprintf("COMMIT off=%d count=%d", coff, ccnt))
+			ops = append(ops, fmt.Sprintf("COMMIT %s off=%d count=%d", f.name, coff, ccnt))
 			rec.Eval(1)
-			r, _ := c.commit(fh, uint64(coff), uint32(ccnt))
+			r, _ := c.commit(f.fh, uint64(coff), uint32(ccnt))
 			if r == nil || r.Status != 0 {
+				rec.Distinct("COMMIT-failed")
 				continue
 			}
-			if verf != nil && *verf != r.Verf {
-				rec.Violate("C22/write-verifier-changed-during-instance-life", fmt.Sprintf("WRITE %x, COMMIT %x", *verf, r.Verf), ops)
-			}
+			seeVerf(r.Verf, "COMMIT")
 			end := coff + ccnt
 			if ccnt == 0 {
-				end = len(model)
+				end = len(f.model)
 			}
-			for j := coff; j < end && j < len(model); j++ {
-				ack.grow(j + 1)
-				ack.b[j] = int16(model[j])
+			for j := coff; j < end && j < len(f.model); j++ {
+				if f.model[j] >= 0 {
+					f.ack.grow(j + 1)
+					f.ack.b[j] = f.model[j]
+				}
 			}
 			check("right after the COMMIT reply")
 			rec.Distinct(fmt.Sprintf("COMMIT|whole=%v", ccnt == 0))
-		default:
-			ns := rng.Intn(len(model) + 4)
-			ops = append(ops, fmt.Sprintf("SETATTR size=%d", ns))
-			flightTrunc = ns
-			r, _ := c.setattr(fh, xdrw.Sattr3{Size: xdrw.U64p(uint64(ns))})
-			flightTrunc = -1
+		case k < 10:
+			ns := rng.Intn(len(f.model) + 4)
+			ops = append(ops, fmt.Sprintf("SETATTR %s size=%d", f.name, ns))
+			flightFile, flightTrunc = f, ns
+			r, _ := c.setattr(f.fh, xdrw.Sattr3{Size: xdrw.U64p(uint64(ns))})
+			flightFile, flightTrunc = nil, -1
 			if r == nil || r.Status != 0 {
 				continue
 			}
-			if ns < len(model) {
-				model = model[:ns]
-				if len(ack.b) > ns {
-					ack.b = ack.b[:ns]
+			if ns < len(f.model) {
+				f.model = f.model[:ns]
+				if len(f.ack.b) > ns {
+					f.ack.b = f.ack.b[:ns]
 				}
 			} else {
-				model = append(model, make([]byte, ns-len(model))...)
+				for len(f.model) < ns {
+					f.model = append(f.model, 0)
+				}
 			}
 			rec.Distinct("SETATTR-size")
+		case k < 11:
+			// reconfiguration must not change the instance's write verifier
+			ops = append(ops, "UpdateTuningOptions")
+			srv.nfs.UpdateTuningOptions(func(t *TuningOptions) { t.TransferSize = 4096 + 1024*rng.Intn(8) })
+			rec.Distinct("reconfigure")
+		default:
+			// a fresh handle for the same file (LOOKUP again) acknowledges against the same bytes
+			if l, _ := c.lookup(root, f.name); l != nil && l.Status == 0 {
+				f.fh = vfFH(l.FH)
+			}
+			rec.Distinct("relookup")
 		}
 	}
 	fs.SetHook(nil)
@@ -222,27 +306,33 @@ func vfC22Episode(rec *evid.Rec, ep int) int {
 		if !committedSeen[2] {
 			c2 = "COMMIT"
 		}
-		rec.Violate("C22/acknowledged-data-not-durable/acknowledged-by="+c2, firstViolation, map[string]any{"episode": ep, "ops": ops})
+		if faulty && injected > 0 {
+			c2 += "/with-backend-faults"
+		}
+		rec.Violate("C22/acknowledged-data-not-durable/acknowledged-by="+c2, firstViolation, map[string]any{"episode": ep, "ops": ops, "faults_injected": injected})
 	}
+	rec.Add("backend_faults_injected", injected)
 	// a real crash, a new server over what survived, and READs of the acknowledged ranges
 	fs.Crash()
 	srv2, err := vfNewSrv(fs, ExportOptions{AttrCacheTimeout: 1})
 	if err == nil {
 		c2 := srv2.client()
 		root2, _ := c2.mnt("/")
-		if l2, _ := c2.lookup(root2, "f"); l2 != nil && l2.Status == 0 {
-			r, _ := c2.read(vfFH(l2.FH), 0, 65536)
-			if r != nil && r.Status == 0 {
-				lost := 0
-				for i, v := range ack.b {
-					if v >= 0 && (i >= len(r.Data) || int16(r.Data[i]) != v) {
-						lost++
+		for _, f := range files {
+			if l2, _ := c2.lookup(root2, f.name); l2 != nil && l2.Status == 0 {
+				r, _ := c2.read(vfFH(l2.FH), 0, 65536)
+				if r != nil && r.Status == 0 {
+					lost := 0
+					for i, v := range f.ack.b {
+						if v >= 0 && (i >= len(r.Data) || int16(r.Data[i]) != v) {
+							lost++
+						}
 					}
+					if lost > 0 {
+						rec.Violate("C22/acknowledged-data-lost-after-crash-and-restart", fmt.Sprintf("%d acknowledged bytes of %s are not returned by READ after the crash (file is %d bytes)", lost, f.name, len(r.Data)), map[string]any{"episode": ep, "ops": ops})
+					}
+					rec.Distinct(fmt.Sprintf("restart|lost=%v", lost > 0))
 				}
-				if lost > 0 {
-					rec.Violate("C22/acknowledged-data-lost-after-crash-and-restart", fmt.Sprintf("%d acknowledged bytes are not returned by READ after the crash (file is %d bytes)", lost, len(r.Data)), map[string]any{"episode": ep, "ops": ops})
-				}
-				rec.Distinct(fmt.Sprintf("restart|lost=%v", lost > 0))
 			}
 		}
 		srv2.Close()
@@ -250,6 +340,5 @@ func vfC22Episode(rec *evid.Rec, ep int) int {
 	if ep == 0 {
 		rec.Sample(map[string]any{"ops": ops, "crash_points": points})
 	}
-	_ = pending
 	return points
 }
